@@ -138,13 +138,15 @@ func vpBuildUnpadded(chunks []vpChunk, sectors int) []byte {
 // (sector, count) constrained only by the Anvil validity predicate.
 func vpArbitraryState(K, S int) []vpChunk {
 	chunks := make([]vpChunk, K)
+	prev := -1
 	for i := range chunks {
 		c := &chunks[i]
+		// coordinates in increasing order of their index: the order of the list
+		// means nothing (layouts stay ordered), so this only removes duplicates
 		ci := vp.Choice(vpLiveCoords())
+		vp.Assume(ci > prev)
+		prev = ci
 		c.x, c.z = vpCoords[ci][0], vpCoords[ci][1]
-		for k := 0; k < i; k++ {
-			vp.Assume(chunks[k].x != c.x || chunks[k].z != c.z)
-		}
 		c.sec, c.cnt = vp.Int32(), vp.Int32()
 		vp.Assume(c.sec >= 2 && c.cnt >= 1 && c.cnt <= 3 && c.sec+c.cnt <= int32(S))
 		for k := 0; k < i; k++ {
@@ -155,7 +157,11 @@ func vpArbitraryState(K, S int) []vpChunk {
 		c.sec = int32(vpConcrete(int(c.sec), S))
 		c.cnt = int32(vpConcrete(int(c.cnt), 4))
 		// length: smallest, largest and one in between that fits the run
-		switch vp.Choice(2 + vp.Tier()) {
+		nl := 2 + vp.Tier()
+		if K >= 3 {
+			nl = 2
+		}
+		switch vp.Choice(nl) {
 		case 0:
 			c.length = 4096*int(c.cnt) - 4
 		case 1:
